@@ -204,33 +204,49 @@ func (f *formatter) FormatSchema(schema *ast.Schema) {
 
 	f.FormatCommentGroup(schema.Comment)
 
-	var inSchema bool
-	startSchema := func() {
-		if !inSchema {
-			inSchema = true
+	roots := []struct {
+		operation   string
+		def         *ast.Definition
+		defaultName string
+	}{
+		{"query", schema.Query, "Query"},
+		{"mutation", schema.Mutation, "Mutation"},
+		{"subscription", schema.Subscription, "Subscription"},
+	}
 
-			f.WriteWord("schema")
-
-			f.FormatDirectiveList(schema.SchemaDirectives)
-
-			f.WriteString("{").WriteNewline()
-			f.IncrementIndent()
+	// Without a schema definition the root operation types are the types
+	// named Query, Mutation and Subscription. The definition is needed when
+	// that is not this schema: a root has another name, a type with a default
+	// name is not that root.
+	var hasRoot, needSchema, inSchema bool
+	for _, root := range roots {
+		if root.def != nil {
+			hasRoot = true
+		}
+		if root.def != nil && root.def.Name != root.defaultName {
+			needSchema = true
+		}
+		if schema.Types[root.defaultName] != nil && (root.def == nil || root.def.Name != root.defaultName) {
+			needSchema = true
 		}
 	}
-	if schema.Query != nil && schema.Query.Name != "Query" {
-		startSchema()
-		f.WriteWord("query").NoPadding().WriteString(":").NeedPadding()
-		f.WriteWord(schema.Query.Name).WriteNewline()
-	}
-	if schema.Mutation != nil && schema.Mutation.Name != "Mutation" {
-		startSchema()
-		f.WriteWord("mutation").NoPadding().WriteString(":").NeedPadding()
-		f.WriteWord(schema.Mutation.Name).WriteNewline()
-	}
-	if schema.Subscription != nil && schema.Subscription.Name != "Subscription" {
-		startSchema()
-		f.WriteWord("subscription").NoPadding().WriteString(":").NeedPadding()
-		f.WriteWord(schema.Subscription.Name).WriteNewline()
+	if needSchema && hasRoot {
+		inSchema = true
+
+		f.WriteWord("schema")
+
+		f.FormatDirectiveList(schema.SchemaDirectives)
+
+		f.WriteString("{").WriteNewline()
+		f.IncrementIndent()
+
+		// a schema definition switches the defaults off: name every root
+		for _, root := range roots {
+			if root.def != nil {
+				f.WriteWord(root.operation).NoPadding().WriteString(":").NeedPadding()
+				f.WriteWord(root.def.Name).WriteNewline()
+			}
+		}
 	}
 	if inSchema {
 		f.DecrementIndent()
